@@ -614,10 +614,30 @@ func checkDirectInvokeKeepsNoHistory(c *report.Ctx) {
 		}
 		return 0
 	})
+	// ... or field by field: every field of the record is given its zero value
+	var fieldBits uint64
+	nf := 0
+	if st := structFields(c, "L/core/directinvoke", "CustomerHeaders"); len(st) > 0 && len(st) < 60 {
+		nf = len(st)
+		fieldBits = (uint64(1) << uint(nf)) - 1
+	}
+	fieldOrd := an.NewOrder(ld, func(in ssa.Instruction) uint64 {
+		st, isSt := in.(*ssa.Store)
+		if !isSt || len(ld.Params) == 0 || !an.IsZero(st.Val) {
+			return 0
+		}
+		fa, isFA := st.Addr.(*ssa.FieldAddr)
+		if !isFA || fa.X != ssa.Value(ld.Params[0]) || fa.Field >= nf {
+			return 0
+		}
+		return uint64(1) << uint(fa.Field)
+	})
 	ok, ne := true, 0
 	for _, e := range an.Exits(ld) {
 		ne++
-		if must, _ := ord.Before(e.Ret); must&1 == 0 {
+		must, _ := ord.Before(e.Ret)
+		fmust, _ := fieldOrd.Before(e.Ret)
+		if must&1 == 0 && !(nf > 0 && fmust&fieldBits == fieldBits) {
 			ok = false
 		}
 	}
